@@ -3,7 +3,7 @@ from hypothesis import strategies as st
 
 from vlib import jasm_io, x86enc
 from vlib.elfw import disassemble_blob
-from vlib.objsrc import listing_for, source_tag, sources
+from vlib.objsrc import ALL_LAYOUTS, LAYOUT_ASSUMPTION, LAYOUT_RULE, layout_tag, listing_for, source_tag, sources
 from vlib.refnorm import GPR16, GPR32, GPR64, GPR8, classify_line, normal_form, split_operands
 from vlib.render import HEADER, inst_line
 from vlib.runner import Eval
@@ -22,7 +22,8 @@ RULE = (
     "order must be preserved; operands outside the listed forms are UNSPEC (counted, only count/order checked). Checked on the stream record and on parse_line. "
     "Non-trivial: an instruction with >= 1 memory operand or >= 2 operands whose operands are all inside the listed forms; distinct by instruction text."
 )
-ASSUMPTIONS = ["an instruction printed with prefix words (lock, rep*, bnd, notrack, segment, addr32, rex.*) has the operands that follow its real mnemonic", "forms outside the statement's list (segment overrides, *, masks, %st(n), vector registers, two-component memory) are UNSPEC", "objdump 2.40 as input source for the real routes"]
+RULE += " Real objdump output is taken " + LAYOUT_RULE + "."
+ASSUMPTIONS = ["an instruction printed with prefix words (lock, rep*, bnd, notrack, segment, addr32, rex.*) has the operands that follow its real mnemonic", "forms outside the statement's list (segment overrides, *, masks, %st(n), vector registers, two-component memory) are UNSPEC", "objdump 2.40 as input source for the real routes", LAYOUT_ASSUMPTION]
 FLOORS = {"route=synthetic": 0.3, "route=encoded": 0.2, "shape=k(a,b,c)": 0.05, "shape=(a,b,c)": 0.03, "shape=k(,b,c)": 0.03, "shape=k(a)": 0.05, "shape=(a)": 0.03, "shape=imm": 0.05, "shape=target": 0.03}
 MN = ["mov", "add", "lea", "cmp", "push", "call", "jmp", "imul", "test", "nop", "ret", "shl"]
 ALLREG = GPR64 + GPR32 + GPR16 + GPR8
@@ -86,7 +87,7 @@ def cases(draw):
                 e["addr32"] = False
             encs.append(e)
         return {"route": route, "encs": encs}
-    return {"route": route, "source": draw(sources(max_chunks=8))}
+    return {"route": route, "source": draw(sources(max_chunks=8, layouts=ALL_LAYOUTS))}
 
 
 def strategy(tier):
@@ -187,7 +188,7 @@ def evaluate(case):
             shapes.add("shape=" + ("k" if k_ else "") + "(" + ("a" if a_ else "") + (",b,c" if b_ else "") + ")")
     else:
         rc, text, _ = listing_for(case["source"])
-        ev.tags.append(source_tag(case["source"]))
+        ev.tags += [source_tag(case["source"]), layout_tag(case["source"])]
         if rc != 0:
             return ev
     ev.tags += sorted(shapes)
